@@ -245,7 +245,9 @@ class Pregex():
             message = "Parameter \"n_right\" can't be negative."
             raise _ex.InvalidArgumentValueException(message)
 
-        for _, start, end in self.iterate_matches_and_pos(source, is_path):
+        if is_path:
+            source = self.__extract_text(source)
+        for _, start, end in self.iterate_matches_and_pos(source):
             yield source[max(start - n_left, 0):min(end + n_right, len(source))]
 
 
